@@ -56,6 +56,9 @@ def coq_stmt(s):
     if op == "arrset": return "SArrSet %d %s %d" % (s[1], nl(s[2]), s[3])
     if op == "bset": return "SBSet %d %d" % (s[1], s[2])
     if op == "bget": return "SBGet %d %d" % (s[1], s[2])
+    if op == "bsetidx": return "SBSetIdx %d %s %d" % (s[1], nl(s[2]), s[3])
+    if op == "bgetidx": return "SBGetIdx %d %d %s" % (s[1], s[2], nl(s[3]))
+    if op == "raise": return "SRaise %s" % {"KeyboardInterrupt": "KeyboardInterrupt_", "SystemExit": "SystemExit_", "ValueError": "ValueError", "RuntimeError": "RuntimeError"}[s[1]]
     if op == "breakif": return "SBreakIf %d" % s[1]
     if op == "oif":
         return "SOIf %d %s [%s] %s" % (s[1], coq_prog(s[2]), "; ".join("(%s, %d%%nat, %s)" % (coq_prog(cb), cr, coq_prog(b)) for cb, cr, b in s[3]),
@@ -365,6 +368,10 @@ class Gen:
                 out.append(["itelazy", self.new("any"), cnd, tb, tr_, fb, fr_])
             elif choice == "probe":
                 out.append(["probe"])
+            elif choice == "raise":
+                if depth == 0 and r.random() < 0.7: continue        # mostly inside guarded regions / lazy branches
+                out.append(["raise", r.choice(pf.get("raise_kinds", ["KeyboardInterrupt", "SystemExit", "ValueError", "RuntimeError"]))])
+                break
             elif choice == "ignore" and depth == 0:
                 out.append(["ignore", r.choice([True, False])])
             elif choice == "list":
